@@ -101,6 +101,7 @@ struct State {
     std::atomic<u64> progress{0}; std::atomic<long> cur_case{-1};
     std::string cur_desc; bool flushed = false;
     u64 steps = 0;
+    std::vector<void (*)()> finalizers;   // run before the final flush (and on sanitizer death)
 };
 inline State& st() { static State s; return s; }
 
@@ -133,7 +134,7 @@ inline void flush_out() {
     s.stats.clear(); s.maxes.clear(); s.samples.clear(); s.sigs.clear();
     fflush(s.out);
 }
-inline void death_cb() { State& s = st(); if (s.flushed) return; s.flushed = true; if (s.out) { fprintf(s.out, "C\t%ld\n", (long)s.cur_case); } flush_out(); }
+inline void death_cb() { State& s = st(); if (s.flushed) return; s.flushed = true; if (s.out) { fprintf(s.out, "C\t%ld\n", (long)s.cur_case); } for (auto f : s.finalizers) f(); flush_out(); }
 
 // Oracle violation: key = clause/site/discriminator ; continues with the next case.
 inline void violation(const std::string& key, const std::string& desc) {
@@ -159,8 +160,8 @@ inline std::string current_exception_type() {
 inline size_t live_bytes() { return __sanitizer_get_current_allocated_bytes ? __sanitizer_get_current_allocated_bytes() : 0; }
 
 // ---- step budget (cov flavor) ------------------------------------------------------------
-#ifdef VERIF_COV
-extern "C" inline void __sanitizer_cov_trace_pc() {
+#if defined(VERIF_COV) && !defined(VERIF_NO_COV_CALLBACK)
+extern "C" __attribute__((no_sanitize_coverage, used)) void __sanitizer_cov_trace_pc() {
     State& s = st();
     if (++s.steps > s.a.budget && s.a.budget) {
         if (s.out) { fprintf(s.out, "B\t%ld\t%llu\n", (long)s.cur_case, (unsigned long long)s.steps); }
@@ -222,6 +223,7 @@ inline int run(int argc, char** argv, const char* prop, CaseFn fn, std::function
     pthread_attr_t at; pthread_attr_init(&at); pthread_attr_setstacksize(&at, (size_t)512 << 20);
     pthread_t th; if (pthread_create(&th, &at, big_stack_main, &m) != 0) { perror("pthread_create"); return 2; }
     pthread_join(th, 0);
+    for (auto f : s.finalizers) f();
     fprintf(s.out, "E\t%d\n", a.worker); flush_out(); s.flushed = true;
     if (s.out != stdout) fclose(s.out);
     return 0;
